@@ -25,7 +25,9 @@ ASSUMPTIONS = [
     "queries the numpy shim cannot model (listed in the evidence as not_modelled) are excluded rather than sampled",
 ]
 EXCLUDE = {"plot", "to_plato_scene", "bounding_circle", "bounding_sphere", "insphere_from_center", "circumsphere_from_center", "incircle_from_center"}
-KINDS = ["Circle", "Ellipse", "Sphere", "Ellipsoid", "Polygon", "ConvexPolygon", "ConvexSpheropolygon", "Polyhedron", "ConvexPolyhedron", "ConvexSpheropolyhedron"]
+KINDS = ["Circle", "Ellipse", "Sphere", "Ellipsoid", "Polygon", "ConvexPolygon", "ConvexSpheropolygon", "Polyhedron", "ConvexPolyhedron", "ConvexSpheropolyhedron",
+         # polygons whose vertices run clockwise about the stored normal: explicit opposite normal / reflex first corner with the default normal
+         "Polygon.cw", "Polygon.reflex_first"]
 
 
 def _mk(kind, H, V):
@@ -47,6 +49,13 @@ def _mk(kind, H, V):
 
     if kind == "Polygon":
         return S.Polygon(placed([(x, y, 0) for x, y in SH.POLYGONS["arrow"]], "r1"), test_simple=False)
+    if kind == "Polygon.cw":
+        R = O.rot_from_quat(*SH.QUATS["r1"])
+        nrm = [-x for x in O.matvec(R, [F(0), F(0), F(1)])]
+        return S.Polygon(placed([(x, y, 0) for x, y in SH.POLYGONS["arrow"]], "r1"), normal=H.arr([H.num(x) for x in nrm]), test_simple=False)
+    if kind == "Polygon.reflex_first":
+        a = SH.POLYGONS["arrow"]
+        return S.Polygon(placed([(x, y, 0) for x, y in a[1:] + a[:1]], "r2"), test_simple=False)
     if kind == "ConvexPolygon":
         return S.ConvexPolygon(placed([(x, y, 0) for x, y in SH.POLYGONS["quad"]], "id"))
     if kind == "ConvexSpheropolygon":
@@ -65,7 +74,7 @@ def _mk(kind, H, V):
 def queries(kind):
     import coxeter.shapes as S
 
-    cls = getattr(S, kind)
+    cls = getattr(S, kind.split(".")[0])
     out = []
     for n in sorted(dir(cls)):
         if n.startswith("_") or n in EXCLUDE:
@@ -96,7 +105,21 @@ def _call(s, name, H, V, keep):
         keep.append((ang, list(ang)))
         return s.distance_to_surface(ang)
     if name == "compute_form_factor_amplitude":
-        raise NotImplementedError("covered by C12")
+        # the amplitudes themselves are C12's subject; here cos / sin are uninterpreted (congruence only) and only the
+        # effect of the call on the shape, on handed-out arrays and on the argument is claimed
+        q = H.arr([[H.num(F(1, 2)), H.num(F(-1, 3)), H.num(F(1, 4))], [H.num(0), H.num(0), H.num(0)]])
+        keep.append((q, [list(r) for r in q]))
+        if H.symbolic:
+            from symx import core
+
+            core.CTX.trig_opaque = True
+            try:
+                res = s.compute_form_factor_amplitude(q)
+            finally:
+                core.CTX.trig_opaque = False
+        else:
+            res = s.compute_form_factor_amplitude(q)
+        return [abs(z) * 0 for z in res] if not H.symbolic else [0 for _ in res]
     if name == "get_face_area":
         return s.get_face_area()
     if name == "get_dihedral":
@@ -238,7 +261,7 @@ def _ob(kind, seq, tier):
     import coxeter.shapes as S
     from symx.loader import functions_encoded
 
-    cls = getattr(S, kind)
+    cls = getattr(S, kind.split(".")[0])
     fl = []
     for q in seq:
         a = getattr(cls, q, None)
